@@ -58,6 +58,10 @@ chk("C14","exploration","differential runtime monitor over request histories: ca
  "Held on the histories explored (colliding operation pools, ttl 0 / 1 ms straddled / 1 h, sequential and concurrent): every response of the caching gateway equals the plain gateway's answer to the same operation; no data race on shared cached plans.",
  "Trusted: the plain gateway is stateless (self-checked per pool entry; a non-deterministic plain answer makes the case inconclusive).","DESIGN.md §5 C14")
 
+chk("C15","exploration","round-trip runtime monitor: generated SDL served by a spec-shaped introspection responder through the real introspector and queryer; fact-set equality and operation-validity agreement",
+ "Held on the schemas explored (all type-system features listed in the rule): the reconstructed schema's fact set equals S's, operations are valid on both or on neither, no panic; schemas with references nested deeper than 7 wrappers are a listed known finding (rejected at start-up).",
+ "Trusted: the harness's introspection responder (reference engine; self-checked by rebuilding its own answers) and fact extraction.","DESIGN.md §5 C15")
+
 claimed=set(C)
 na=[{"property_id":p['id'],"reason":"check under construction in this round; not claimed yet"} for p in props if p['id'] not in claimed]
 m={"version":1,"setup_cmd":"./run.sh build && ./run.sh selftest",
